@@ -9,7 +9,11 @@ from . import c01, c02
 DT = {"f": np.float64, "i": np.int64, "b": bool, "O": object}
 
 
-def rhs_values(n, kind):
+def rhs_values(n, kind, flavour=None):
+    if kind == "f" and flavour == "whole":
+        return (np.arange(n, dtype=float) + 7000.0)              # floats that happen to be integral
+    if kind == "f" and flavour == "huge":
+        return np.array([[np.inf, 1e20, -np.inf, 3e9][k % 4] for k in range(n)], dtype=float)   # not representable as int64
     if kind == "f":
         return (np.arange(n, dtype=float) + 7000.5)
     if kind == "i":
@@ -106,6 +110,8 @@ class C03(Prop):
             c["rkind"] = {"f": rng.choice(["f", "i", "b"]), "i": rng.choice(["i", "b", "f"]), "b": "b", "O": rng.choice(["O", "f", "i", "b"])}[akind]
         c["inplace"] = rng.random() < 0.6
         c["rhs"] = rng.choice(["scalar", "scalar", "zerod", "array", "array", "array_bcast"])
+        if c["cast"] and c["rkind"] == "f":
+            c["rflavour"] = rng.choice(["frac", "frac", "whole", "huge"])
         return c
 
     def gen_boolnd(self, rng):
@@ -142,7 +148,7 @@ class C03(Prop):
     def rhs_of(self, c):
         kind = c["rkind"]
         if c["rhs"] in ("scalar", "zerod") or c.get("boolnd") is not None:
-            v = rhs_values(1, kind)[0]
+            v = rhs_values(1, kind, c.get("rflavour"))[0]
             if kind != "O":
                 v = v.item() if c["rhs"] == "scalar" else np.array(v)
             return v, None
@@ -150,17 +156,17 @@ class C03(Prop):
         if shp and any(s == 0 for s in shp):
             # empty selection: nothing is written, but the right-hand side must still broadcast to its shape
             if c["rhs"] == "array":
-                return rhs_values(0, kind).reshape(shp), list(shp)
+                return rhs_values(0, kind, c.get("rflavour")).reshape(shp), list(shp)
             if len(shp) > 1 and int(np.prod(shp[1:])) > 0:
                 n = int(np.prod(shp[1:]))
-                return rhs_values(n, kind).reshape(shp[1:]), list(shp[1:])
+                return rhs_values(n, kind, c.get("rflavour")).reshape(shp[1:]), list(shp[1:])
         if not shp or any(s == 0 for s in shp):
-            v = rhs_values(1, kind)[0]
+            v = rhs_values(1, kind, c.get("rflavour"))[0]
             return (v.item() if kind != "O" else v), None
         if c["rhs"] == "array_bcast" and len(shp) >= 1:
             shp = shp[1:] if len(shp) > 1 else (1,)
         n = int(np.prod(shp))
-        return rhs_values(n, kind).reshape(shp), list(shp)
+        return rhs_values(n, kind, c.get("rflavour")).reshape(shp), list(shp)
 
     def impl(self, c):
         old = da.get_option("indexing.by")
@@ -242,7 +248,7 @@ class C03(Prop):
                 for i, (x, y) in enumerate(zip(before["values"], res["values"])):
                     if i not in sel and x != y and not (c["cast"] and same_number(x, y)):
                         prop_bad.append("frame.values"); break
-                rv = rhs_values(1, c["rkind"])
+                rv = rhs_values(1, c["rkind"], c.get("rflavour"))
                 if c["cast"]:
                     # no assigned value is truncated or lost: every selected cell holds one of the assigned values
                     allowed = set(map(lambda v: json_key(core.canon_value(v if not isinstance(v, np.generic) else v.item())),
